@@ -120,6 +120,11 @@ def Bounds.ofArg : Option (List BoundArg) → Bounds
       pred := bs.filterMap fun | .pred p => some p | _ => none
       dflt := bs.any fun | .dots => true | _ => false }
 
+/-- every entry of a `bound(..)` list parses (as `..`, a where-predicate or a type) -/
+def boundOk : Option (List BoundArg) → Bool
+  | none => true
+  | some bs => bs.all fun | .bad _ => false | _ => true
+
 structure WCB where
   types : List Ty := []
   preds : List WPred := []
@@ -168,12 +173,14 @@ def Entry.ofItem (bound : Option (List BoundArg)) (dump : Bool) (item : DeriveIt
   match Kind.fromStr item.trait_ with
   | none => bail
   | some k =>
+    if !(boundOk bound && boundOk (match item.args with | some (b, _) => b | none => none)) then bail else
     let (d, bt) := match item.args with
       | some (b, d) => (d, Bounds.ofArg b)
       | none => (false, Bounds.new)
     pure { kind := k, dump := dump || d, boundsThis := bt, boundsCommon := Bounds.ofArg bound }
 
-def Entry.ofArgs (a : Args) : R (List Entry) := a.items.mapM (Entry.ofItem a.bound a.dump)
+def Entry.ofArgs (a : Args) : R (List Entry) :=
+  if boundOk a.bound then a.items.mapM (Entry.ofItem a.bound a.dump) else bail
 
 def Entry.ofArgsList (as : List Args) : R (List Entry) := do
   let ess ← as.mapM Entry.ofArgs
@@ -302,8 +309,11 @@ def debugBodies (attrs : List Attr) : List (HBody DebugArgs) :=
 def defaultBodies (attrs : List Attr) : List (HBody DefaultArgs) :=
   attrs.filterMap fun | .dflt b => some b | _ => none
 
+/-- parsing the arguments of one comparison attribute: a `key` template that misuses `$` is refused here -/
+def CmpArgs.check (a : CmpArgs) : R CmpArgs := if a.keyBad || !boundOk a.bound then bail else pure a
+
 def CmpH.fromAttrs (attrs : List Attr) (w : CmpAttr) : R CmpH := do
-  match ← parseSingle (cmpBodies attrs w) {} pure with
+  match ← parseSingle (cmpBodies attrs w) {} CmpArgs.check with
   | some a => pure { ignore := a.ignore, reverse := a.reverse, by_ := a.by_, key := a.key, bounds := Bounds.ofArg a.bound }
   | none => pure {}
 
@@ -319,13 +329,14 @@ def CmpHs.fromAttrs (attrs : List Attr) (k : Kinds) : R CmpHs := do
   pure { ord, partialOrd, eq, partialEq, hash }
 
 def DebugH.fromAttrs (attrs : List Attr) : R DebugH := do
-  match ← parseSingle (debugBodies attrs) {} pure with
+  match ← parseSingle (debugBodies attrs) {} (fun a => if boundOk a.bound then pure a else bail) with
   | some a => pure { transparent := a.transparent, ignore := a.ignore, bounds := Bounds.ofArg a.bound }
   | none => pure {}
 
 /-- `ArgsForDefault` has a required unnamed argument; its `Default` is `_` -/
 def DefaultH.fromAttrs (attrs : List Attr) : R (Option DefaultH) := do
-  let check (a : DefaultArgs) : R DefaultArgs := match a.value with | none => bail | some _ => pure a
+  let check (a : DefaultArgs) : R DefaultArgs :=
+    if !boundOk a.bound then bail else match a.value with | none => bail | some _ => pure a
   match ← parseSingle (defaultBodies attrs) { value := some (["_"], .underscore) } check with
   | some a =>
     let value := match a.value with
